@@ -7,7 +7,7 @@ from emmet import expand
 from emmet.config import Config
 
 PROP_ID = 'C14'
-RULE = ("(a) exhaustive: every key of the resolved html, xsl and pug snippet tables, alone (expand(key) == expand(definition), format on and off, "
+RULE = ("(a) exhaustive: every name declared by the raw html, xsl and pug snippet tables (each `|`-separated name of each key), alone (expand(key) == expand(definition), format on and off, "
         "reverseAttributes on/off) and — for single-element definitions — with every subset of decorations {.x, #i, [t=1 u], two class mentions, {txt}, *2, /, >p+q} "
         "compared with the textual splice (definition attributes, then alias attributes; alias text/repeat// win; under reverseAttributes alias attributes first); "
         "for multi-element definitions: alias classes land once on every top-level element and nowhere else, children land inside the deepest last element. "
@@ -138,7 +138,7 @@ def cfg_of(case, fmt):
 
 def check_alias(case, rec):
     key, deco = case['key'], case.get('deco') or []
-    table = Config({'syntax': case['syntax'], 'snippets': case.get('user') or {}}).snippets
+    table = Config({'syntax': case['syntax'], 'snippets': case.get('user') or {}}).snippets if case.get('user') else declared_table(case['syntax'])
     defn = table[key]
     if defn != key:
         rec.nontrivial(distinct=True)
@@ -210,7 +210,7 @@ def parse_tags(s):
 def check_multi(case, rec):
     "decorated alias of a definition with several elements: classes on every top-level element (once each), children in the deepest last element"
     key = case['key']
-    table = Config({'syntax': case['syntax'], 'snippets': case.get('user') or {}}).snippets
+    table = Config({'syntax': case['syntax'], 'snippets': case.get('user') or {}}).snippets if case.get('user') else declared_table(case['syntax'])
     defn = table[key]
     rec.nontrivial(distinct=True)
     cfg = {'syntax': case['syntax'], 'options': {'output.format': False, 'output.selfClosingStyle': 'xhtml'}}
@@ -369,10 +369,29 @@ def check_table(case, rec):
 CHECKS = {'alias': check_alias, 'multi': check_multi, 'table': check_table}
 
 
+def declared_table(syntax):
+    """name → definition as DECLARED by the raw snippet tables (every `|`-separated name of every key), type-level table overlaid by the
+    syntax-level one — not read from the resolved Config, so a name the loader drops is still expected to work"""
+    from emmet.snippets.html import snippets as raw_html
+    raws = [raw_html]
+    if syntax == 'xsl':
+        from emmet.snippets.xsl import snippets as raw_xsl
+        raws.append(raw_xsl)
+    if syntax == 'pug':
+        from emmet.snippets.pug import snippets as raw_pug
+        raws.append(raw_pug)
+    out = {}
+    for raw in raws:
+        for k, v in raw.items():
+            for name in k.split('|'):
+                out[name] = v
+    return out
+
+
 def builtin_cases():
     import itertools
     for syntax in ('html', 'xsl', 'pug'):
-        table = Config({'syntax': syntax}).snippets
+        table = declared_table(syntax)
         for key in sorted(table):
             defn = table[key]
             for rev in (False, True):
